@@ -215,10 +215,17 @@ def run_shard(ctx):
                 a.chain = "B"
             items.append({"part_a": pdbio.write(ea), "part_b": pdbio.write(eb), "order": "AB", "band": band})
 
+        import json
+        import os
+        w = json.load(open(os.path.join(os.path.dirname(os.path.dirname(os.path.abspath(__file__))), "witnesses",
+                                        "F24_ligand_copies_penalised_by_label.json")))["case"]
+        items.append(w)
+
         def one(c):
             v, info = check_case(c)
             info["sample"] = {"part_a": "corpus 1FTJ-Chain-A residues < 60", "mode": "copy-new-chains",
-                              "band": c["band"]}
+                              "band": c["band"]} if c is not w else {
+                                  "witness": "fixed finding F24: two copies of a ligand in one chain, 1300 A apart"}
             ctx.account(c, v, info)
         ctx.loop_stage("F4-regression", items, one)
 
